@@ -331,6 +331,7 @@ func propC09(w *World, r *Report, tier string) {
 		}
 	}
 	r.Expect("bits.pairs", 700)
+	checkDnnText(w, r)
 	r.Extra["accessor_pairs"] = npairs
 	r.Extra["types"] = len(tnames)
 }
@@ -1037,4 +1038,123 @@ func trunc(s string, n int) string {
 		return s[:n] + "…"
 	}
 	return s
+}
+
+
+// checkDnnText (text.dnn): the DNN text accessors at concrete label layouts (E2 with reader and
+// text models): GetDNN returns exactly the labels of the buffer joined by '.', empty labels
+// included; SetDNN stores exactly the length-prefixed labels of the dotted text and sets Len to
+// their total size.
+func checkDnnText(w *World, r *Report) {
+	get := w.LookupFunc("nasType", "DNN.GetDNN")
+	set := w.LookupFunc("nasType", "DNN.SetDNN")
+	if get == nil || set == nil {
+		r.Fail("anchor", "nasType.DNN.GetDNN/SetDNN", "missing", token.NoPos, "DNN text accessors not found", nil)
+		return
+	}
+	shapes := [][]int{{3}, {8}, {3, 2}, {1, 1, 1}, {0}, {3, 0}, {0, 3}, {3, 0, 2}, {0, 0}}
+	letter := func(it *Interp, name string) BV { // a character that cannot be '.'
+		ch := it.constBV(0x60, 8)
+		copy(ch.B[0:5], it.SrcBV(name, 5).B)
+		return ch
+	}
+	for _, shape := range shapes {
+		// labels -> text
+		{
+			r.Site("text.dnn")
+			it := NewInterp(w)
+			it.Fuel = 100000
+			readerModels(it)
+			st := it.NewState()
+			bo := it.NewObj("buf", false)
+			st.mem[bo] = map[string]Value{}
+			var want []BV
+			off := 0
+			for li, l := range shape {
+				st.mem[bo][fmt.Sprintf("[%d]", off)] = it.constBV(uint64(l), 8)
+				off++
+				if li > 0 {
+					want = append(want, it.constBV('.', 8))
+				}
+				for k := 0; k < l; k++ {
+					ch := letter(it, fmt.Sprintf("c%d_%d", li, k))
+					st.mem[bo][fmt.Sprintf("[%d]", off)] = ch
+					want = append(want, ch)
+					off++
+				}
+			}
+			ro, recv := it.SymbolicObj("dnn")
+			st.mem[ro] = map[string]Value{".Buffer": SliceV{Obj: bo, Len: off}, ".Len": it.constBV(uint64(off), 8)}
+			res := it.Call(w.SSAFunc(get), []Value{recv}, st, 0)
+			good, why := len(it.Unsup) == 0, fmt.Sprintf("undecided: %v", it.Unsup)
+			if good {
+				var got []BV
+				switch s := res.(type) {
+				case StrV:
+					got, _ = toCharsOf(it, s)
+				default:
+					good, why = false, "result is not a text"
+				}
+				if good && len(got) != len(want) {
+					good, why = false, fmt.Sprintf("%d characters returned, the labels make %d", len(got), len(want))
+				}
+				for i := 0; good && i < len(want); i++ {
+					if ok, m := sameBV(it, BV{W: 8, B: got[i].B}, want[i]); !ok {
+						good, why = false, fmt.Sprintf("character %d: %s", i, m)
+					}
+				}
+			}
+			if good {
+				r.OK("text.dnn")
+			} else {
+				r.Fail("text.dnn", FuncName(get), fmt.Sprintf("label lengths %v", shape), get.Pos(), "GetDNN does not return the labels joined by '.': "+why, nil)
+			}
+		}
+		// text -> labels
+		{
+			r.Site("text.dnn")
+			it := NewInterp(w)
+			it.Fuel = 100000
+			st := it.NewState()
+			txt := StrV{Sym: true}
+			var want []BV
+			for li, l := range shape {
+				if li > 0 {
+					txt.Chars = append(txt.Chars, it.constBV('.', 8))
+				}
+				want = append(want, it.constBV(uint64(l), 8))
+				for k := 0; k < l; k++ {
+					ch := letter(it, fmt.Sprintf("c%d_%d", li, k))
+					txt.Chars = append(txt.Chars, ch)
+					want = append(want, ch)
+				}
+			}
+			ro, recv := it.SymbolicObj("dnn")
+			it.Call(w.SSAFunc(set), []Value{recv, txt}, st, 0)
+			good, why := len(it.Unsup) == 0, fmt.Sprintf("undecided: %v", it.Unsup)
+			if good {
+				buf, ok := st.mem[ro][".Buffer"].(SliceV)
+				got, okB := sliceBytes(it, st, buf)
+				if !ok || !okB || len(got) != len(want) {
+					good, why = false, fmt.Sprintf("Buffer has %d octets, the length-prefixed labels make %d", len(got), len(want))
+				}
+				for i := 0; good && i < len(want); i++ {
+					if ok, m := sameBV(it, got[i], want[i]); !ok {
+						good, why = false, fmt.Sprintf("octet %d: %s", i, m)
+					}
+				}
+				if good {
+					if ok, m := sameBV(it, st.mem[ro][".Len"], it.constBV(uint64(len(want)), 8)); !ok {
+						good, why = false, "Len: "+m
+					}
+				}
+			}
+			if good {
+				r.OK("text.dnn")
+			} else {
+				r.Fail("text.dnn", FuncName(set), fmt.Sprintf("label lengths %v", shape), set.Pos(), "SetDNN does not store the length-prefixed labels of the text: "+why, nil)
+			}
+		}
+	}
+	r.Expect("text.dnn", 18)
 }
